@@ -2,6 +2,9 @@
 alpha-renaming invariance; distinct identifiers never alias."""
 from __future__ import annotations
 
+import contextlib
+import gc
+import signal
 import sys
 import unicodedata
 
@@ -153,6 +156,22 @@ def script_for(src, data, expected, src0=None, uses_tree=False):
     return s
 
 
+def _on_cpu_alarm(signum, frame):
+    raise core.CaseTimeout()
+
+
+@contextlib.contextmanager
+def cpu_alarm(seconds):
+    """hang guard on the CPU time of this process (a wall-clock guard misfires on a loaded machine)."""
+    old = signal.signal(signal.SIGVTALRM, _on_cpu_alarm)
+    signal.setitimer(signal.ITIMER_VIRTUAL, seconds)
+    try:
+        yield
+    finally:
+        signal.setitimer(signal.ITIMER_VIRTUAL, 0)
+        signal.signal(signal.SIGVTALRM, old)
+
+
 RENDER_STACK = 160  # frames available to one render; endless macro recursion hits it quickly
 
 
@@ -211,8 +230,11 @@ def shard(arg) -> core.Part:
         kinds = sorted(G.kinds(prog))
         uses_tree = "recfor" in kinds
         p.count("programs")
-        with core.alarm(20):
-            got, cerr = run_real(jinja2.Environment, src, datas)
+        try:
+            with cpu_alarm(30):
+                got, cerr = run_real(jinja2.Environment, src, datas)
+        except core.CaseTimeout:
+            got, cerr = None, "CaseTimeout: more than 30 s of CPU time"
         if got is None:
             p.evals += 1
             report("C03/compile-error/" + cerr.split(":")[0], lambda: {
@@ -268,8 +290,11 @@ def shard(arg) -> core.Part:
         kws = None
         for name, mp in chosen:
             src2 = G.to_source(pe, mp)
-            with core.alarm(20):
-                got2, cerr = run_real(jinja2.Environment, src2, datas, mp)
+            try:
+                with cpu_alarm(30):
+                    got2, cerr = run_real(jinja2.Environment, src2, datas, mp)
+            except core.CaseTimeout:
+                got2, cerr = None, "CaseTimeout: more than 30 s of CPU time"
             p.count("renamed_programs")
             if got2 is None:
                 got2 = [G.Failure(cerr.split(":")[0])] * len(datas)
@@ -350,11 +375,15 @@ def run(ctx: core.Ctx):
     bounds = {}
     for profile, pool, nmax, K, alternate in plan:
         en = G._enum(pool, profile, 3)
-        for n in range(nmax):
-            en.lists(n, G.TOP)  # built once here, shared copy-on-write by the forked workers
+        for n in range(nmax + 1):  # built once here, shared by the forked workers
+            en.stmts(n, G.TOP)
+            if n < nmax:
+                en.lists(n, G.TOP)
         shards += [(profile, pool, nmax, 0, k, K, nren, ncol, alternate) for k in range(K)]
         bounds[profile] = {"pool": list(pool), "max_nodes": nmax, "max_nesting": 3,
                            "labels": {kk: len(v) for kk, v in G.alphabet(pool, profile).items()}}
+    gc.collect()
+    gc.freeze()  # the enumeration tables are permanent: keep the cyclic GC (and copy-on-write) off them
     ctx.pmap(shard, shards)
     ctx.cov["bounds"] = bounds
     ctx.cov["renamings_per_program"] = {"rule": "one per program, ordinary and NFKC-colliding alternately (alias profiles: one of each)",
